@@ -677,7 +677,7 @@ def count_steps(pf, op, shared=None, opcodes=False):
 # free-running threads (the exploration the property's quantifier names)
 # ---------------------------------------------------------------------------------------------
 
-def stress_run(pf, op_lists, rng, shared=None, switch=1e-6):
+def stress_run(pf, op_lists, rng, shared=None, switch=1e-6, deadline_s=None):
     """Thread i runs op_lists[i] in order on the shared handle; randomised start barriers; minimal
     interpreter switch interval.  Returns (early, late): canonical results taken right after each
     call, and again after every thread has finished (aliasing with later calls shows up there)."""
@@ -706,7 +706,7 @@ def stress_run(pf, op_lists, rng, shared=None, switch=1e-6):
     try:
         for t in ts:
             t.start()
-        deadline = time.time() + STRESS_DEADLINE       # one deadline for the whole round, not per thread
+        deadline = time.time() + (deadline_s or STRESS_DEADLINE)       # one deadline for the whole round, not per thread
         for t in ts:
             t.join(max(0.0, deadline - time.time()))
     finally:
